@@ -93,7 +93,22 @@ def user_pipeline():
     return ProcessingPipeline.from_yaml(USER_PIPE.replace("@VALUES@", _values_file()), allow_external_sources=True)
 
 
+def _register_user_modifier():
+    from ..usermod import register
+
+    register()
+
+
 def doc(kind: str) -> dict:
+    _register_user_modifier()
+    if kind == "okcont":
+        d = rule_doc("ok1", 7)
+        d["detection"]["sel"] = {"fieldA|contains": "v7"}
+        return d
+    if kind == "custmod":
+        d = rule_doc("ok1", 7)
+        d["detection"]["sel"] = {"fieldA|containsnum": 4625}
+        return d
     if kind == "phfile":  # a placeholder filled from the external value list (filtered by the item)
         d = rule_doc("ok1", 7)
         d["detection"]["sel"] = {"fieldA|expand": "%users%"}
@@ -117,7 +132,7 @@ def doc(kind: str) -> dict:
     return rule_doc(kind, 7)
 
 
-PROBES = ("ok1", "okstate", "neqok", "ok2", "direct", "phfile", "optph")
+PROBES = ("ok1", "okstate", "neqok", "ok2", "direct", "phfile", "optph", "custmod")
 _CLS = None
 
 
